@@ -679,6 +679,9 @@ func vf03GenFilter(rng *rand.Rand, c *vf03Corpus, key string) vf03Filter {
 		default:
 			v = pick()
 		}
+		if _, ok := vf03Int(v); !ok && rng.IntN(6) != 0 {
+			v = vf03IntPool[rng.IntN(len(vf03IntPool))] // keep most numeric filters well-formed
+		}
 	case op == object.MatchCommonPrefix:
 		v = pick()
 		switch rng.IntN(4) {
